@@ -147,6 +147,17 @@ def replay(prop, path):
     doc = json.load(open(path))
     sc = doc["scenario"]
     vlib.build_harness()
+    if doc["violation"]["invariant"] == "ArbiterConforms":
+        # a voting history of the v2 fan-out arbiter: replay it on the real type, compare with the stored expectation
+        w = doc["violation"]["what"]
+        tr = vlib.run_harness("multiack", [sc], name="replay")[0]
+        e = next(x for x in tr if x["ev"] == "CaseResult")
+        same = (e["calls"] or []) == w["expected_calls"] and e["released"] == w["expected_released"]
+        print("re-executed: arbiter %s the specification's expectation" % ("matches" if same else "deviates from"))
+        if not same:
+            print("VIOLATION property=%s replay=%s" % (prop, path))
+            return 1
+        return 0
     viols, _ = vlib.validate_traces("DataPathTrace", vlib.spec_files("datapath"), [doc["trace"]], name="replay0")
     stored = [v for v in viols if v["inv"] == doc["violation"]["invariant"]]
     print("stored trace: %d violation record(s) of %s" % (len(stored), doc["violation"]["invariant"]))
